@@ -138,6 +138,8 @@ PLAN = {
                       "runner": "wdsched", "trace": "Trace_Watchdog", "threads": 12, "budget_ms": 60000},
                      fam("rt", runner="rt", trace="Trace_Timeouts", threads=12, budget_ms=60000),
                      fam("rt_release", runner="rt", trace="Trace_Timeouts", threads=1, budget_ms=60000),
+                     # which kind of error is reported (ErrorKinds.tla): a timeout only when a transport read really timed out
+                     fam("x_errkinds"),
                      # connection lifecycle (ConnLifecycle.tla): sockets of earlier hops and of failed calls are released
                      {"gen": ("tlc", {"name": "redirect-chains", "tla": "MC_Redirect.tla", "cfg": "MC_Redirect.cfg", "cfg_thorough": "MC_Redirect_thorough.cfg", "workers": 8}),
                       "runner": "loop", "trace": "Trace_SendLoop"}],
